@@ -861,6 +861,11 @@ for _m in ('simd_splat_extract',):
     OPS[_m] = ('field:' + _m, 'val', 1, '', None)
 for _m in ('simd_replace_extract', 'simd_select_true', 'simd_select_false'):
     OPS[_m] = ('field:' + _m, 'val', 2, '', None)
+_PC = '({S}_PartialOrd_partial_cmp a b)'
+for _n, _pat in (('po_lt', 'Some Less => true'), ('po_le', 'Some Less => true | Some Equal => true'), ('po_gt', 'Some Greater => true'),
+                 ('po_ge', 'Some Greater => true | Some Equal => true'), ('po_cmp_less', 'Some Less => true'), ('po_cmp_equal', 'Some Equal => true'),
+                 ('po_cmp_greater', 'Some Greater => true'), ('po_cmp_none', 'None => true')):
+    OPS[_n] = ('field:' + _n, 'bool', 2, '', '(match %s with %s | _ => false end)' % (_PC, _pat))
 OPS['rf_is_sign_positive'] = ('field:rf_is_sign_positive', 'bool', 1, '', '({S}_RealField_is_sign_positive a)')
 OPS['rf_is_sign_negative'] = ('field:rf_is_sign_negative', 'bool', 1, '', '({S}_RealField_is_sign_negative a)')
 
